@@ -1,13 +1,19 @@
 #!/bin/bash
 # tools/coqchk_all.sh [ids...]: re-checks the compiled Properties/<id>.vo and everything it depends on with Coq's independent checker
-# (coqchk -o prints the axioms the checked libraries rely on).  Slow (20 min to hours per property): run once on the final tree, not in
-# the quick tier.  Result: coqchk/<id>.txt (the CONTEXT SUMMARY) and a line in coqchk/SUMMARY.txt.
-cd /verif/coq || exit 2
-ids=${@:-C01 C02 C03 C04 C05 C06 C07 C08 C09 C10 C11 C12 C13 C14 C15 C16 C17 C18 C19 C20}
+# (coqchk -o prints the axioms the checked libraries rely on).  Slow (1 min to 30 min per property file): run once on the final tree, not
+# in the quick tier.  Result: coqchk/<id>.txt (the CONTEXT SUMMARY) and a line in coqchk/SUMMARY.txt.
+# The compiled files are checked in a private copy (COQCHK_DIR, default /tmp/coqchk_copy/coq, made by rsync when absent) so that a
+# check that rebuilds /verif/coq at the same time cannot make coqchk read half-written files.
+# ids: property file names without .v (C04Load, C12Locks, ... are separate closures and are checked separately).
+src=/verif/coq
+dir=${COQCHK_DIR:-/tmp/coqchk_copy/coq}
+if [ ! -d "$dir" ]; then mkdir -p "$dir" && rsync -a --include='*/' --include='*.vo' --exclude='*' $src/ $dir/ || exit 2; fi
+cd "$dir" || exit 2
+ids=${@:-$(cd $src/Properties && ls *.v | sed 's/\.v$//')}
 for id in $ids; do
   start=$(date +%s)
-  timeout 28000 nice -n 15 coqchk -silent -o -Q . AV AV.Properties.$id > ../coqchk/$id.txt 2>&1
+  timeout 28000 nice -n 15 coqchk -silent -o -Q . AV AV.Properties.$id > /verif/coqchk/$id.txt 2>&1
   rc=$?
-  ax=$(grep -A3 "^\* Axioms" ../coqchk/$id.txt | tr '\n' ' ' | cut -c1-300)
-  echo "$id rc=$rc seconds=$(( $(date +%s) - start )) commit=$(git -C /verif rev-parse --short HEAD) $ax" >> ../coqchk/SUMMARY.txt
+  ax=$(grep -A3 "^\* Axioms" /verif/coqchk/$id.txt | tr '\n' ' ' | cut -c1-300)
+  echo "$id rc=$rc seconds=$(( $(date +%s) - start )) commit=$(git -C /verif rev-parse --short HEAD) $ax" >> /verif/coqchk/SUMMARY.txt
 done
